@@ -1,0 +1,11 @@
+//go:build verif
+
+package reconciler
+
+import "context"
+
+// VerifWorkOnce processes exactly one item from the workqueue using the same
+// code path as the background workers.
+func (w *Controller) VerifWorkOnce(ctx context.Context) bool {
+	return w.work(ctx)
+}
